@@ -243,6 +243,10 @@ fn own_cands(prop: &str, cols: u32, lines: u32, r: &mut Rng) -> Vec<Call> {
                     c.push(Call::ResetMode(vec![n], p));
                 }
             }
+            // "DECSCNM sets / clears reverse video on ... the default and current rendition": what a reset inside
+            // an SGR list resets to while the mode is on (or off again) belongs to this property (`propRev`)
+            c.extend([Call::Sgr(vec![0]), Call::Sgr(vec![0, 1]), Call::Sgr(vec![1, 0, 4]), Call::Sgr(vec![27, 0]), Call::Sgr(vec![7, 0]),
+                      Call::Sgr(vec![]), Call::Sgr(vec![0, 38, 5, 0]), Call::Sgr(vec![31, 0, 0, 1])]);
         }
         "C13" => {
             for p in param_set(cols) {
@@ -1827,6 +1831,61 @@ pub fn generate(prop: &str, tier: &str, seed: u64) -> Vec<Session> {
     out
 }
 
+
+/// C10: sparse screens (a few cells far apart, never-written rows and row ends) followed by an operation that
+/// reads, moves or clips cells; the metamorphic run interposes display() at every position of each
+fn c10_structured_bases() -> Vec<Session> {
+    let cup = |l: u32, c: u32| api(Call::CursorPosition(Some(l), Some(c)));
+    let dr = |t: &str| api(Call::Draw(t.to_string()));
+    let a = api;
+    let prefixes: Vec<Vec<Op>> = vec![
+        vec![cup(1, 8), dr("x"), cup(3, 1), dr("y")],
+        vec![cup(2, 3), dr("\u{4e2d}"), cup(4, 8), dr("z"), cup(1, 1), dr("ab")],
+        vec![a(Call::Sgr(vec![31])), cup(1, 1), dr("ab"), cup(3, 6), dr("q")],
+        vec![cup(1, 1), dr("abcdefgh"), cup(3, 5), dr("k")],
+    ];
+    let mut follow: Vec<Vec<Op>> = vec![
+        vec![a(Call::Resize(None, Some(3))), a(Call::Resize(None, Some(8)))],
+        vec![a(Call::Resize(None, Some(7))), a(Call::Resize(None, Some(9)))],
+        vec![a(Call::Resize(Some(2), None)), a(Call::Resize(Some(4), None))],
+        vec![a(Call::SetMode(vec![5], true))],
+        vec![a(Call::SetMode(vec![5], true)), a(Call::ResetMode(vec![5], true))],
+        vec![a(Call::SetMode(vec![3], true)), a(Call::ResetMode(vec![3], true))],
+        vec![a(Call::AlignmentDisplay)],
+        vec![cup(4, 1), a(Call::Index)],
+        vec![cup(1, 1), a(Call::ReverseIndex)],
+        vec![a(Call::SetMargins(Some(2), Some(3))), cup(3, 1), a(Call::Index), cup(2, 1), a(Call::ReverseIndex)],
+        vec![a(Call::SetMode(vec![4], false)), cup(1, 2), dr("I"), cup(2, 1), dr("J")],
+        vec![a(Call::Reset)],
+    ];
+    for r in 1..=4u32 {
+        follow.push(vec![cup(r, 1), dr("\u{301}")]);
+        follow.push(vec![cup(r, 8), dr("w"), dr("\u{301}")]);
+        for c in [1u32, 4, 8] {
+            follow.push(vec![cup(r, c), a(Call::InsertCharacters(Some(2)))]);
+            follow.push(vec![cup(r, c), a(Call::DeleteCharacters(Some(2)))]);
+            follow.push(vec![cup(r, c), a(Call::EraseCharacters(Some(3)))]);
+        }
+        follow.push(vec![cup(r, 1), a(Call::InsertLines(Some(1)))]);
+        follow.push(vec![cup(r, 1), a(Call::DeleteLines(Some(1)))]);
+        follow.push(vec![cup(r, 4), a(Call::EraseInLine(Some(1)))]);
+        follow.push(vec![cup(r, 4), a(Call::EraseInDisplay(Some(0)))]);
+    }
+    let mut out = vec![];
+    let mut n = 0;
+    for p in &prefixes {
+        for f in &follow {
+            let mut ops = p.clone();
+            ops.extend(f.clone());
+            // make what the operation did visible in later state as well: widen, tab, draw
+            ops.push(a(Call::Resize(Some(5), Some(10))));
+            n += 1;
+            out.push(sess(format!("c10s{}", n), 8, 4, ops));
+        }
+    }
+    out
+}
+
 /// Final observation of a session run on a fresh runner (None if it died).
 fn final_obs(s: &Session, with_dirty: bool, with_sp: bool) -> Result<String, String> {
     use crate::exec::Runner;
@@ -2058,7 +2117,10 @@ pub fn meta(prop: &str, tier: &str, seed: u64) -> String {
                 let nops = rr.range(2, 30);
                 let via = rr.below(3);
                 let bytes = rr.chance(1, 5);
-                let base0 = gen::session(&mut rr, format!("C10m{}", i), "draw", nops, via, bytes);
+                // display() materialises what it reads: any operation that treats a stored blank differently from
+                // an absent cell would show, so the base histories come from every family, not only from drawing
+                let focus = ["draw", "any", "resize", "ichdch", "scroll", "erase", "mode", "draw", "any", "misc"][i as usize % 10];
+                let base0 = gen::session(&mut rr, format!("C10m{}", i), focus, nops, via, bytes);
                 // the base history has no display() at all
                 let base = Session { ops: base0.ops.iter().filter(|o| !matches!(o, Op::Api(Call::Display))).cloned().collect(), ..base0 };
                 let want = final_obs(&base, true, true);
@@ -2083,6 +2145,27 @@ pub fn meta(prop: &str, tier: &str, seed: u64) -> String {
                 }
                 if i == 0 {
                     sample = base.text();
+                }
+            }
+            // sparse screens x operations that read or move cells x display() at every single position
+            for base in c10_structured_bases() {
+                let want = final_obs(&base, true, true);
+                for pos in 0..=base.ops.len() + 1 {
+                    let mut ops = vec![];
+                    for (k, op) in base.ops.iter().enumerate() {
+                        if k == pos || pos == base.ops.len() + 1 {
+                            ops.push(Op::Api(Call::Display));
+                        }
+                        ops.push(op.clone());
+                    }
+                    ops.push(Op::Api(Call::Display));
+                    let re = Session { ops, ..base.clone() };
+                    n += 1;
+                    if final_obs(&re, true, true) != want {
+                        nfail += 1;
+                        fail(&mut out, "interposed display() changes the final state", &base, &re);
+                        break;
+                    }
                 }
             }
         }
@@ -2169,5 +2252,76 @@ pub fn meta(prop: &str, tier: &str, seed: u64) -> String {
     out.push_str(&format!("METASUMMARY prop={} evaluations={} failures={}\n", prop, n, nfail));
     out.push_str("#SAMPLE\n");
     out.push_str(&sample);
+    out
+}
+
+/// The model-free metamorphic relations of C10 and C02 applied to GIVEN sessions (those the
+/// coverage-guided search proposed): the search reaches the code, this judges it without any model.
+pub fn meta_on(prop: &str, sessions: &[Session], seed: u64) -> String {
+    let mut r = Rng::new(seed ^ 0x7171);
+    let mut out = String::new();
+    let mut n = 0u32;
+    let mut nfail = 0u32;
+    let fail = |out: &mut String, what: &str, a: &Session, b: &Session| {
+        out.push_str(&format!("METAFAIL {} {}\n", prop, what));
+        out.push_str("#A\n");
+        out.push_str(&a.text());
+        out.push_str("#B\n");
+        out.push_str(&b.text());
+        out.push_str("#END\n");
+    };
+    for s in sessions {
+        if nfail >= 5 {
+            break;
+        }
+        match prop {
+            "C10" => {
+                // the history without any display(), against display() after every operation and at random places
+                let base = Session { ops: s.ops.iter().filter(|o| !matches!(o, Op::Api(Call::Display))).cloned().collect(), ..s.clone() };
+                if base.ops.is_empty() {
+                    continue;
+                }
+                let want = final_obs(&base, true, true);
+                if want.is_err() {
+                    continue;
+                }
+                for mode in 0..2 {
+                    let mut ops = vec![];
+                    for op in &base.ops {
+                        ops.push(op.clone());
+                        if mode == 0 || r.chance(1, 3) {
+                            ops.push(Op::Api(Call::Display));
+                        }
+                    }
+                    let re = Session { ops, ..base.clone() };
+                    n += 1;
+                    if final_obs(&re, true, true) != want {
+                        nfail += 1;
+                        fail(&mut out, "interposed display() changes the final state", &base, &re);
+                        break;
+                    }
+                }
+            }
+            "C02" => {
+                // one feed of everything between two non-feed operations, against one feed per unit and a random cut
+                let whole = merge_feeds(s);
+                let want = final_obs(&whole, true, true);
+                if want.is_err() {
+                    continue;
+                }
+                for mode in 0..2 {
+                    let re = rechunk(&mut r, &whole, mode);
+                    n += 1;
+                    if final_obs(&re, true, true) != want {
+                        nfail += 1;
+                        fail(&mut out, "C02 chunking changes the final state", &whole, &re);
+                        break;
+                    }
+                }
+            }
+            _ => {}
+        }
+    }
+    out.push_str(&format!("METASUMMARY prop={} evaluations={} failures={}\n", prop, n, nfail));
     out
 }
